@@ -20,8 +20,7 @@
 
    Modes:  rand <seed> <sessions> [quiet]     random call histories, single-stream decoder
            ms <seed> <sessions> [quiet]       multistream + projection decoders
-           loss <seed> <k> <bursts> [quiet]   C09: loss patterns x call shapes (see c09_loss.c)
-           stdin                              replay `decskel hist …` lines (see replay())       */
+           (C09: harness/c09_loss.c #includes this file with C01_NO_MAIN and adds the loss-pattern modes)  */
 #ifdef HAVE_CONFIG_H
 #include "config.h"
 #endif
